@@ -670,7 +670,7 @@ def C19(ctx):
     q = ctx.quick
     req_campaign(ctx, [("dup", 0)])
     return dict(
-        rule="E: 33 requests in which one authentication input is repeated with differing values, in both orders, built "
+        rule="E: 60 requests in which one authentication input is repeated with differing values, in both orders, built "
              "so that exactly one selection makes the signature valid: Authorization header x2 (AWS4 + Basic / AWS4 + "
              "AWS4), Credential / SignedHeaders / Signature repeated inside it, each X-Amz-* query parameter repeated, "
              "X-Amz-Date x2, Date + X-Amz-Date in both arrival orders, token header x2 / token parameter x2, both "
